@@ -764,7 +764,9 @@ INDICATORS = ['- ', ': ', '? ', '# ', '&a ', '*a', '!t ', '!!str ', '| ', '> ',
               '>+\n t', '"\\x41"', '"\\', "'it''s'", '&x', '*x ', '%YAML 1.1\n',
               '%TAG ! tag:x,2000:\n', '--- ', '... ', '!!timestamp ',
               '2001-13-45', '0x_', '1:99', '.inf.', '1e', '!!float abc',
-              '!!bool maybe', '!!null x', '!!int ""']
+              '!!bool maybe', '!!null x', '!!int ""', '"\\U00110000"',
+              '"\\UFFFFFFFF"', '"\\xZZ"', '"\\u12"', '"\\U0001f600"',
+              '"\\N"', "'\\U00110000'"]
 
 
 def token_soup(rng, maxlen=40):
